@@ -1,5 +1,5 @@
 import Xsm.Model.Engine
-import Xsm.Model.Parse
+import Xsm.Model.Validate
 /-!
 Line-protocol driver for the executable model (compiled as a `lean_exe`; imports only `Xsm.Model`).
 
@@ -90,7 +90,7 @@ def handle (d : DS) (line : String) : DS × String :=
     match parseJson (dropPrefix line 2) with
     | .error e => ({ d with m := none, s := {} }, "{\"ok\":false,\"err\":" ++ jstr ("JSON " ++ e) ++ "}")
     | .ok j =>
-      match parseMachine j with
+      match createMachine j with
       | .ok mm => ({ d with m := some mm, s := {} }, "{\"ok\":true}")
       | .error e => ({ d with m := none, s := {} }, "{\"ok\":false,\"err\":" ++ jstr e ++ "}")
   else if line.startsWith "G" then
